@@ -1,6 +1,7 @@
 package yubiagent
 
 //vsym:pkg github.com/theparanoids/ysshra/agent/yubiagent
+//vsym:include yubiagent/ctor.go || yubiagent/ctor_bb.go
 //vsym:include C13/zz_stub.go
 //vsym:entry H13_addhardcert
 //vsym:entry H13_addhardcert_sequence
@@ -168,7 +169,7 @@ func H13_addhardcert() {
 		reply = "boom"
 	}
 	cc := &m20ClientConn{in: append([]byte{0, 0, 0, byte(len(reply))}, reply...)}
-	cl := &client{conn: cc}
+	cl := ygNewClient(cc)
 	cerr := cl.AddHardCert(w13BlobKey, comment)
 	vAssert((cerr == nil) == (reply == "SUCCESS"), "C13.client-reports-server-failures-as-errors")
 	if cerr != nil {
@@ -236,8 +237,8 @@ func H13_client_exchange() {
 	op := ops[vChoose(len(ops), "operation")]
 	reply := []byte("\x00\x00\x00\x07SUCCESS")
 	conn := &m13LockedConn{m20ClientConn{in: reply}}
-	cl := &client{conn: conn}
-	vName(&cl.connLock, "client.connLock")
+	cl := ygNewClient(conn)
+	vWatchAll(cl, "client") // its mutex is "client.<field>"
 	vTraceReset()
 	vCatch(func() {
 		switch op {
@@ -255,7 +256,7 @@ func H13_client_exchange() {
 			cl.Forward(vNondetBytes("req", 2))
 		}
 	})
-	vTraceCheckAtomic(op, "client.connLock")
+	vTraceCheckAtomic(op, "client.*")
 	vTraceEmit("client." + op)
 	vReach("C13.client.exchange")
 }
